@@ -1039,6 +1039,10 @@ def eval_pipeline(repo, run, rule):
     compiled in eval mode and evaluated - both (patched) in the same namespace, exec first; what eval returns is the value
     (handed to the context when it is a node); a namespace that is published is published with its content"""
     fi = repo.func('EvalNode.ayns.on_evaluate_impl')
+    from .c12 import exotic_eval_shape
+    why = exotic_eval_shape(fi)
+    if why:
+        raise AnalysisError('EvalNode.on_evaluate_impl: %s - shape not recognised by the trace rules' % why)
     paths = [p for p in tr.paths_of(repo, fi, no_inline={'_require_safe', '_patch_access_to_globals', 'evaluate_node', 'get_eval_symbols'}, follow_exceptions=False) if p.status == 'return']
     if not paths:
         raise AnalysisError('EvalNode.on_evaluate_impl: no returning path')
@@ -3309,6 +3313,12 @@ def partial_child_getitem(repo, run, rule):
         made, sets = [], []
 
         def mk(*a, **k):
+            # (arguments by keyword are placed by the constructor's own parameter names)
+            init_ = repo.resolve('EvalContext.PartialChild', '__init__')
+            names_ = init_.params()[1:] if init_ is not None else []
+            a, k = list(a), dict(k)
+            while len(a) < len(names_) and names_[len(a)] in k:
+                a.append(k.pop(names_[len(a)]))
             made.append((tuple(tuple(x) if isinstance(x, list) else getattr(x, 'name', x) for x in a), dict(k)))
             return Obj('holder', 'EvalContext.PartialChild')
 
@@ -3342,6 +3352,9 @@ def strict_block_errors(repo, run, rule):
     fi = repo.func('EvalContext.require_all_safe')
     probs = set()
     n = 0
+    if any(isinstance(c, ast.Call) and isinstance(c.func, ast.Attribute) and c.func.attr in ('callback', 'push', 'enter_context') for c in ast.walk(fi.node)) \
+            or any(isinstance(c, ast.Call) and isinstance(c.func, ast.Name) and c.func.id == 'setattr' for c in ast.walk(fi.node)):
+        raise AnalysisError('%s: require_all_safe restores the mode through a registered callback / setattr: not recognised' % rule)
     for p in tr.paths_of(repo, fi, follow_exceptions=True):
         ys = [i for i, e in enumerate(p.events) if e.kind == 'yield' or e.kind == 'exc']
         sets = [(i, e) for i, e in enumerate(p.events) if e.kind == 'store' and e.target == 'self._require_all_safe']
